@@ -546,7 +546,7 @@ def parse_model(a):
         return ("ok", json.loads(a[3:]))
     if a.startswith("THROW "):
         t = a.split()
-        return ("exc", err_text(t[1], t[2] if len(t) > 2 else None))
+        return ("exc", err_text(t[1], t[2] if len(t) > 2 else None), t[1], t[2] if len(t) > 2 else None)
     if a.startswith("OOB "):
         t = a.split()
         return ("oob", t[1], int(t[2]))
@@ -579,10 +579,62 @@ def symbolize(exe, pcs):
     tool = shutil.which("llvm-symbolizer") or shutil.which("llvm-symbolizer-14")
     if not tool:
         return {}
-    rc, so, se = vlib.sh([tool, "--obj=" + str(exe), "--functions=short", "--inlines=false", *pcs], timeout=120)
+    rc, so, se = vlib.sh([tool, "--obj=" + str(exe), "--functions=short", "--no-inlines", *pcs], timeout=120)
     res = {}
     blocks = [b for b in so.strip().split("\n\n") if b.strip()]
     for pc, b in zip(pcs, blocks):
         ls = b.strip().split("\n")
         res[pc] = (ls[0].strip(), ls[1].strip() if len(ls) > 1 else "")
     return res
+
+
+# ------------------------------------------------------------------------------------------------ answers as Coq terms
+
+COQ_DET = {"mdc": "Mdc", "tof": "Tof", "emc": "Emc", "muc": "Muc", "trg": "Trg", "ef": "Ef"}
+COQ_OOB = {"read": "OobRead", "bulk": "OobBulk", "erase_front": "OobEraseFront", "erase_back": "OobEraseBack"}
+
+
+def coq_rows(rows):
+    return "[" + "; ".join(zl(r) for r in rows) + "]"
+
+
+def coq_answer(m):
+    """a model answer (as returned by parse_model) as a Gallina term of type `res result`"""
+    if m[0] == "ok":
+        dets = "; ".join("(%s, {| offsets := %s; rows := %s |})" % (COQ_DET[d], zl(o), coq_rows(r)) for d, o, r in m[1]["dets"])
+        return "Ok {| r_hdr := %s; r_dets := [%s] |}" % (coq_rows(m[1]["hdr"]), dets)
+    if m[0] == "exc":
+        return "Throw (%s %s)" % (m[2], m[3]) if m[3] is not None else "Throw %s" % m[2]
+    if m[0] == "oob":
+        return "OOB %s %d" % (COQ_OOB[m[1]], m[2])
+    if m[0] == "fuel":
+        return "OutOfFuel"
+    raise ValueError(m)
+
+
+def coq_names(mask):
+    l = ["Some " + COQ_DET[d] for i, d in enumerate(DETS) if mask >> i & 1]
+    if mask & 64:
+        l.append("None")
+    return "[" + "; ".join(l) + "]"
+
+
+def cases_file(cases, answers, chk):
+    """Coq file that re-computes every case with vm_compute inside coqc and compares with the given answers;
+    prints one list of booleans"""
+    items = []
+    for (mask, w), a in zip(cases, answers):
+        items.append("(%s, %s, %s)" % (coq_names(mask), zl(w), coq_answer(a)))
+    return ("From Coq Require Import ZArith List Bool. Import ListNotations.\n"
+            "From PV.Model Require Import RawFormat RawParser.\nLocal Open Scope Z_scope.\n"
+            "Definition cases : list (list (option det) * list Z * res result) := [\n" + ";\n".join(items) + "].\n"
+            "Eval vm_compute in map (fun c => match c with (n, b, e) => res_eqb (read_bes_raw_gen %s (fuel_for b) n b) e end) cases.\n"
+            % ("true" if chk else "false"))
+
+
+def parse_bools(out):
+    m = re.search(r"=\s*\[(.*?)\]\s*:\s*list bool", out, flags=re.S)
+    if not m:
+        return None
+    body = m.group(1).strip()
+    return [x.strip() == "true" for x in body.split(";")] if body else []
